@@ -125,6 +125,15 @@ const nHistOps = 22
 var coreOps = []int{0, 1, 2, 3, 4, 5, 8, 15, 16, 18} // SafeString UnsafeString SafeRune UnsafeRune SafeByte UnsafeByte Write PrintStr PrintfStr PrintRedactable
 var strOps = []int{0, 1, 15, 17}
 
+func isCoreOp(x int) bool {
+	for _, c := range coreOps {
+		if c == x {
+			return true
+		}
+	}
+	return false
+}
+
 func histObligs(tier string, panicViol bool) []Oblig {
 	var obs []Oblig
 	add := func(n int, ops ...int) {
@@ -194,6 +203,9 @@ func histObligs(tier string, panicViol bool) []Oblig {
 	if tier == "thorough" {
 		for a := 0; a < nHistOps; a++ {
 			for b := 0; b < nHistOps; b++ {
+				if (a >= 19 || b >= 19) && !(isCoreOp(a) || isCoreOp(b)) {
+					continue // the three late additions are paired with the core operations only
+				}
 				add(1, a, b)
 			}
 		}
@@ -255,9 +267,9 @@ func stepObligs(tier string, panicViol bool) []Oblig {
 
 func histBounds(tier string) map[string]interface{} {
 	if tier == "thorough" {
-		return map[string]interface{}{"per_call_lemmas": "one arbitrary call from every canonical state Can(P,m,Q): 6 fragment shapes x 3 modes x 1-2 pending symbolic bytes x 19 ops", "history_length": "1..3 calls", "scripts": "all 19 ops (len 1), all 361 pairs (payload 1 B), 100 core pairs (payload 2 B), 400 core triples (payload 1 B)", "payload": "fully symbolic bytes (<=3), full 32-bit runes, full bytes, ints 0..99"}
+		return map[string]interface{}{"per_call_lemmas": "one arbitrary call from every canonical state Can(P,m,Q): 6 fragment shapes x 3 modes x 1-2 pending symbolic bytes x 19 ops", "history_length": "1..3 calls", "scripts": "all 22 ops (len 1), all pairs of the first 19 ops and the late 3 with the 10 core ops (payload 1 B), 100 core pairs (payload 2 B), 400 core triples (payload 1 B), template / long-prefix / empty-payload scripts", "payload": "fully symbolic bytes (<=3), full 32-bit runes, full bytes, ints 0..99"}
 	}
-	return map[string]interface{}{"per_call_lemmas": "one arbitrary call from canonical states Can(P,m,Q): 2 fragment shapes x 2 modes x 1 pending symbolic byte x 10 ops", "history_length": "1..3 calls", "scripts": "all 19 ops (payload 1 and 3 B), 100 core pairs (payload 1 B), 16 string-op pairs (payload 2 B), 12 triples", "payload": "fully symbolic bytes (<=3), full 32-bit runes, full bytes, ints 0..99"}
+	return map[string]interface{}{"per_call_lemmas": "one arbitrary call from canonical states Can(P,m,Q): 2 fragment shapes x 2 modes x 1 pending symbolic byte x 10 ops", "history_length": "1..3 calls", "scripts": "all 22 ops (payload 1 and 3 B), 100 core pairs (payload 1 B), 16 string-op pairs (payload 2 B), 12 triples, template / long-prefix / empty-payload scripts", "payload": "fully symbolic bytes (<=3), full 32-bit runes, full bytes, ints 0..99"}
 }
 
 func init() {
